@@ -40,6 +40,8 @@ var probes = []probe{
 	{"if-to-switch", "every if / else-if chain of at least two conditions without break statements is rewritten as a tagless switch", probeIfToSwitch},
 	{"split-and", "every 'if a && b' without else is rewritten as two nested ifs", probeSplitAnd},
 	{"loop-leading-break", "every 'for cond { ... }' is rewritten as 'for { if !(cond) { break }; ... }'", probeLoopLeadingBreak},
+	{"named-results", "every function with unnamed results and no defer gets named results; each 'return e1, e2' becomes 'r1, r2 = e1, e2; return'", probeNamedResults},
+	{"body-in-closure", "the body of every function without results, returns, labels, defer, recover and panic is wrapped in an immediately invoked function literal", probeBodyInClosure},
 }
 
 func applyEdits(src []byte, edits []textEdit) ([]byte, error) {
@@ -868,4 +870,147 @@ func devProbes(repo, verif string) int {
 		}
 	}
 	return code
+}
+
+// ---- named-results ----
+
+// probeNamedResults: every function with unnamed results (and no defer) gets named results; each
+// "return e1, e2" becomes "r1, r2 = e1, e2; return".
+func probeNamedResults(p *Prog) (map[string][]byte, int, error) {
+	perFile := map[string][]textEdit{}
+	n := 0
+	for _, f := range p.sortedFiles() {
+		for _, d := range f.Decls {
+			fd, ok := d.(*ast.FuncDecl)
+			if !ok || fd.Body == nil || fd.Type.Results == nil || len(fd.Type.Results.List) == 0 {
+				continue
+			}
+			tf, name := p.fileOf(fd.Pos())
+			if tf == nil || !strings.HasSuffix(name, ".go") {
+				continue
+			}
+			named := false
+			for _, fl := range fd.Type.Results.List {
+				if len(fl.Names) > 0 {
+					named = true
+				}
+			}
+			if named {
+				continue
+			}
+			nres := len(fd.Type.Results.List)
+			okFn := true
+			var rets []*ast.ReturnStmt
+			ast.Inspect(fd.Body, func(x ast.Node) bool {
+				switch y := x.(type) {
+				case *ast.FuncLit:
+					return false
+				case *ast.DeferStmt:
+					okFn = false
+				case *ast.ReturnStmt:
+					if len(y.Results) != nres {
+						okFn = false
+					}
+					rets = append(rets, y)
+				}
+				return true
+			})
+			if !okFn || len(rets) == 0 {
+				continue
+			}
+			src := p.srcOf(name)
+			if src == nil {
+				continue
+			}
+			var names []string
+			paren := !fd.Type.Results.Opening.IsValid()
+			for i, fl := range fd.Type.Results.List {
+				nm := fmt.Sprintf("zzr%d", i)
+				names = append(names, nm)
+				off := tf.Offset(fl.Type.Pos())
+				pre := ""
+				if paren && i == 0 {
+					pre = "("
+				}
+				perFile[name] = append(perFile[name], textEdit{off, off, pre + nm + " "})
+			}
+			if paren {
+				b := tf.Offset(fd.Type.Results.End())
+				perFile[name] = append(perFile[name], textEdit{b, b, ")"})
+			}
+			for _, rs := range rets {
+				var es []string
+				for _, e := range rs.Results {
+					es = append(es, string(src[tf.Offset(e.Pos()):tf.Offset(e.End())]))
+				}
+				a, b := tf.Offset(rs.Pos()), tf.Offset(rs.End())
+				perFile[name] = append(perFile[name], textEdit{a, b, strings.Join(names, ", ") + " = " + strings.Join(es, ", ") + "\nreturn"})
+			}
+			n++
+		}
+	}
+	ov, err := finishOverlay(p, perFile)
+	return ov, n, err
+}
+
+// ---- body-in-closure ----
+
+// probeBodyInClosure: the body of every function without results, returns, defer and recover is wrapped
+// in an immediately invoked function literal.
+func probeBodyInClosure(p *Prog) (map[string][]byte, int, error) {
+	perFile := map[string][]textEdit{}
+	n := 0
+	for _, f := range p.sortedFiles() {
+		for _, d := range f.Decls {
+			fd, ok := d.(*ast.FuncDecl)
+			if !ok || fd.Body == nil || len(fd.Body.List) == 0 {
+				continue
+			}
+			if fd.Type.Results != nil && len(fd.Type.Results.List) > 0 {
+				continue
+			}
+			tf, name := p.fileOf(fd.Pos())
+			if tf == nil || !strings.HasSuffix(name, ".go") {
+				continue
+			}
+			okFn := true
+			ast.Inspect(fd.Body, func(x ast.Node) bool {
+				switch y := x.(type) {
+				case *ast.FuncLit:
+					return false
+				case *ast.DeferStmt, *ast.ReturnStmt, *ast.LabeledStmt:
+					okFn = false
+				case *ast.CallExpr:
+					if id, isID := y.Fun.(*ast.Ident); isID && (id.Name == "recover" || id.Name == "panic") {
+						okFn = false
+					}
+				}
+				return okFn
+			})
+			if !okFn {
+				continue
+			}
+			a, b := tf.Offset(fd.Body.Lbrace)+1, tf.Offset(fd.Body.Rbrace)
+			perFile[name] = append(perFile[name], textEdit{a, a, "\nfunc() {"}, textEdit{b, b, "}()\n"})
+			n++
+		}
+	}
+	ov, err := finishOverlay(p, perFile)
+	return ov, n, err
+}
+
+// srcOf: the source text of a file of the analysed tree.
+func (p *Prog) srcOf(name string) []byte {
+	if p.srcCache == nil {
+		p.srcCache = map[string][]byte{}
+	}
+	if b, ok := p.srcCache[name]; ok {
+		return b
+	}
+	b, err := os.ReadFile(name)
+	if err != nil {
+		b = nil
+	}
+	p.srcCache[name] = b
+	return b
 }
